@@ -102,6 +102,14 @@ def numeric_oracle(args):
                 ops.append(dense.op_on(n, {q: dense.PAULI[p[0]], q + 1: dense.PAULI[p[1]]}))
             except Exception:  # noqa: BLE001
                 pass
+    # products of two different Paulis (built from their 4x4 matrix): not symmetric under exchanging the two sites
+    from mqt.yaqs.core.libraries.gate_library import BaseGate
+
+    mixed = [("x", "z"), ("y", "x"), ("z", "y"), ("x", "y"), ("z", "x"), ("y", "z")]
+    for q in range(n - 1):
+        a, b = mixed[(q + len(gates)) % 6]
+        obs.append(Observable(BaseGate(np.kron(dense.PAULI[a], dense.PAULI[b])), [q, q + 1]))
+        ops.append(dense.op_on(n, {q: dense.PAULI[a], q + 1: dense.PAULI[b]}))
     # the listing order of the observables is the user's: shuffle it (one- and two-site observables on the same site in either order)
     perm = np.random.default_rng(len(gates) * 7919 + n).permutation(len(obs))
     obs, ops = [obs[i] for i in perm], [ops[i] for i in perm]
